@@ -277,6 +277,18 @@ func protoText(m proto.Message) string {
 	return string(b)
 }
 
+// stripAdjustable clears everything plugins can adjust, leaving what must reach every plugin
+// exactly as submitted (absent sections are normalised to empty ones: protobuf cannot tell).
+func stripAdjustable(ct *api.Container) *api.Container {
+	c := proto.Clone(ct).(*api.Container)
+	c.Annotations, c.Env, c.Mounts, c.Args, c.Hooks, c.Rlimits = nil, nil, nil, nil, nil, nil
+	if c.Linux == nil {
+		c.Linux = &api.LinuxContainer{}
+	}
+	c.Linux.Devices, c.Linux.Resources, c.Linux.OomScoreAdj, c.Linux.CgroupsPath = nil, nil, nil, ""
+	return c
+}
+
 func judgeC04(ex *execution, e *Expect, out *Verdict) {
 	c := ex.c
 	limit := len(c.Chain)
@@ -295,6 +307,11 @@ func judgeC04(ex *execution, e *Expect, out *Verdict) {
 			return
 		}
 		switch c.Kind {
+		case "stop":
+			if !proto.Equal(ct, ex.sub) {
+				out.Fail = fmt.Sprintf("chain position %d (plugin %d): the container of a stop request is not the one the runtime submitted", pos, pi)
+				return
+			}
 		case "create":
 			got := viewOfContainer(ct)
 			want := e.Views[pos]
@@ -305,8 +322,8 @@ func judgeC04(ex *execution, e *Expect, out *Verdict) {
 				out.Fail = fmt.Sprintf("chain position %d (plugin %d) sees a container that is not the original with earlier adjustments applied: %s", pos, pi, d)
 				return
 			}
-			if ct.GetId() != ex.id.self || ct.GetName() != "ctr-"+ex.id.self || ct.GetLabels()["l"] != "v" || ct.GetPodSandboxId() != "pod-"+ex.id.self {
-				out.Fail = fmt.Sprintf("chain position %d: container identity fields changed: %v", pos, ct)
+			if a, b := stripAdjustable(ct), stripAdjustable(ex.sub); !proto.Equal(a, b) {
+				out.Fail = fmt.Sprintf("chain position %d (plugin %d): fields no plugin can adjust differ from what the runtime submitted: shown %s submitted %s", pos, pi, protoText(a), protoText(b))
 				return
 			}
 			if pos >= 1 && want.String() != e.Views[0].String() {
@@ -314,6 +331,10 @@ func judgeC04(ex *execution, e *Expect, out *Verdict) {
 				out.Classes = append(out.Classes, fmt.Sprintf("changed_view_at:%d", pos))
 			}
 		case "update":
+			if !proto.Equal(ct, ex.sub) {
+				out.Fail = fmt.Sprintf("chain position %d (plugin %d): the container of an update request is not the one the runtime submitted: shown %s submitted %s", pos, pi, protoText(ct), protoText(ex.sub))
+				return
+			}
 			got, dup := resFields(ex.seenRes[pi])
 			if dup {
 				out.Lenient = append(out.Lenient, "dup_key")
